@@ -313,6 +313,17 @@ def oracle_c01(ctx):
     res = Result('c01.roundtrip')
     g = ctx.gen
     metas = ctx.generated['catalogue']['methods']
+    # close frames as brokers and clients really send them: every reply code of the specification (and 200) with the
+    # ids of a failing method - through the constructor, copies, pickles
+    for key_ in (0x000A0032, 0x00140028):
+        for code_ in [200, 0] + sorted(spec_tables.REPLY):
+            for ids_ in ((60, 40), (50, 10), (0, 0), (10, 50)):
+                vals = [code_, 'NOT_FOUND - x' if code_ == 404 else 'bye', ids_[0], ids_[1]]
+                res.case('origin ' + pyrepr((key_, vals)), tag='object origin')
+                k, bad = catching(c01_origin_case, key_, vals)
+                if k != 'ok' or bad:
+                    res.violation('%s%r: a constructed / copied frame differs from the values given' % (commands.INDEX_MAPPING[key_].name, tuple(vals)),
+                                  {'fn': 'c01_origin_case', 'args': pyrepr((key_, vals))}, bad[0] if k == 'ok' else 'oracle runs', bad[1] if k == 'ok' else repr(bad))
     for meta in metas:
         cls = commands.INDEX_MAPPING.get(meta['key'])
         if cls is None:
@@ -430,6 +441,28 @@ def c02_case(size, vals, ch, junk):
 
 
 @replayer
+def c02_late_fill_case(vals):
+    """the caller builds an EMPTY Basic.Properties, hands it to a ContentHeader (or to two), and sets the properties on its own
+    object afterwards: the header carries the caller's object and encodes what it holds at the time of encoding"""
+    names = list(commands.Basic.Properties.__slots__)
+    p = commands.Basic.Properties()
+    h1 = header.ContentHeader(0, 3, p)
+    h2 = header.ContentHeader(0, 4, p)
+    if h1.properties is not p or h2.properties is not p:
+        return ('the header holds the Properties object it was given', 'another object')
+    for n_, v_ in zip(names, vals):
+        setattr(p, n_, v_)
+    want1 = catching(frame.marshal, real.make_header(3, vals), 1)
+    got1 = catching(frame.marshal, h1, 1)
+    got2 = catching(frame.marshal, h2, 1)
+    want2 = catching(frame.marshal, real.make_header(4, vals), 1)
+    for (kw, bw), (kg, bg) in ((want1, got1), (want2, got2)):
+        if kw != kg or (kw == 'ok' and bw != bg):
+            return (bw.hex()[:200] if kw == 'ok' else repr(bw), bg.hex()[:200] if kg == 'ok' else repr(bg))
+    return None
+
+
+@replayer
 def c02_edit_case(vals, i):
     """a content header that came from the decoder, with ONE property set back to None (or changed): it encodes exactly
     like a header built from the remaining values, and that decodes again"""
@@ -467,6 +500,13 @@ def oracle_c02(ctx):
     g = ctx.gen
     nprops = len(commands.Basic.Properties.__slots__)
     draws = 4 if ctx.thorough else 1
+    for _ in range(60 if ctx.thorough else 15):
+        vals = lanes.props_vals(ctx, g.r.getrandbits(nprops - 1) | g.r.getrandbits(nprops - 1))
+        res.case('late fill ' + pyrepr(vals), tag='properties filled in after the header was built')
+        k, bad = catching(c02_late_fill_case, vals)
+        if k != 'ok' or bad:
+            res.violation('a Properties object filled in after it was handed to a ContentHeader', {'fn': 'c02_late_fill_case', 'args': pyrepr((vals,))},
+                          bad[0] if k == 'ok' else 'oracle runs', bad[1] if k == 'ok' else repr(bad))
     for _ in range(120 if ctx.thorough else 30):
         vals = lanes.props_vals(ctx, g.r.getrandbits(nprops - 1) | g.r.getrandbits(nprops - 1))
         set_ = [i for i, v in enumerate(vals) if v is not None and v != '']
@@ -659,6 +699,20 @@ def oracle_c04(ctx):
         if k != 'ok' or bad:
             res.violation('field value bytes differ from the reference', {'fn': 'c04_value_case', 'args': pyrepr((v, legacy))},
                           bad[0] if k == 'ok' else 'reference runs', bad[1] if k == 'ok' else repr(bad))
+    # names longer than 128 characters are cut to exactly their first 128 characters, whatever stands at the cut: a combining
+    # mark, the second half of a pair, a character outside the BMP, white space, a format character
+    for at_cut in ['e\u0301', '\u0301\u0301', 'a\u200d', '\U0001f600', '\U0001f1e9\U0001f1ea', ' x', '\u00adx', 'x\ufe0f', '\u1100\u1161', 'ab']:
+        for lead in (126, 127, 128):
+            for tail in ('', 'tail', 'x' * 60):
+                kname = 'k' * lead + at_cut + tail
+                if len(kname) <= 128 or len(kname[:128].encode('utf-8')) > 255:
+                    continue
+                for v in ({kname: 1}, {'a': {kname: 'v'}}, [{kname: None}], {kname: 1, 'k' * 127: 2}):
+                    res.case('cut ' + pyrepr(v)[:300], tag='name cut at 128')
+                    k, bad = catching(c04_value_case, v, False)
+                    if k != 'ok' or bad:
+                        res.violation('a name longer than 128 characters is not cut to its first 128', {'fn': 'c04_value_case', 'args': pyrepr((v, False))},
+                                      bad[0] if k == 'ok' else 'reference runs', bad[1] if k == 'ok' else repr(bad))
     metas = ctx.generated['catalogue']['methods']
     for meta in metas:
         cls = commands.INDEX_MAPPING.get(meta['key'])
@@ -1092,6 +1146,17 @@ def oracle_c06(ctx):
         if kk != 'ok' or bad:
             res.violation('stream held in a memoryview / bytearray', {'fn': 'c06_buffer_case', 'args': pyrepr((datas,))},
                           bad[0] if kk == 'ok' else 'oracle runs', bad[1] if kk == 'ok' else repr(bad))
+    # every type octet, with small payload sizes and the frame-end octet where it belongs (or not): if decoding succeeds, the kind
+    # is the one the type octet names
+    for t_ in range(256):
+        for sz_ in (0, 1, 4, 5, 12, 14):
+            for fill in (b'\x00', b'\xce', b'\x0a'):
+                for end_ in (b'\xce', b'\x00', b''):
+                    m = bytes([t_]) + b'\x00\x01' + struct.pack('>I', sz_) + fill * sz_ + end_ + b'\xce\x01'
+                    res.case(m.hex(), tag='type octet sweep')
+                    bad = c06_envelope_case(m)
+                    if bad:
+                        res.violation('successful decode contradicts the 7-byte header', {'fn': 'c06_envelope_case', 'args': pyrepr((m,))}, bad[0], bad[1])
     # envelope clause on arbitrary inputs on which decoding succeeds
     for i in range(20000 if ctx.thorough else 4000):
         f, ch, b = g.r.choice(frames)
@@ -1181,6 +1246,11 @@ def c20_case(buf):
     # the buffer as a receive loop may hold it: bytes, a bytearray, a memoryview over either, a window into a larger buffer
     views = [('bytes', buf), ('bytearray', bytearray(buf)), ('memoryview', memoryview(buf)), ('memoryview of a bytearray', memoryview(bytearray(buf))),
              ('window into a larger buffer', memoryview(b'\x00\x00' + buf + b'\xff')[2:2 + len(buf)])]
+    import array as _array
+    import ctypes as _ct
+    views += [('array of signed chars', _array.array('b', [x - 256 if x > 127 else x for x in buf])), ('array of unsigned chars', _array.array('B', buf)),
+              ('memoryview cast to signed chars', memoryview(buf).cast('b')), ('memoryview cast to chars', memoryview(buf).cast('c')),
+              ('ctypes string buffer', _ct.create_string_buffer(buf, len(buf)) if buf else b''), ('mmap-like bytearray window', memoryview(bytearray(buf))[0:len(buf)])]
     for label, b in views:
         k, r = catching(frame.frame_parts, b)
         if k != 'ok':
@@ -1610,7 +1680,16 @@ def c10_frame_case(kind, payload, ch):
         import array as _array
         typecode, items, as_view = payload
         arr_ = _array.array(typecode, items)
-        f = body.ContentBody(memoryview(arr_) if as_view else arr_)
+        if as_view == 'matrix':
+            raw_ = arr_.tobytes()
+            rows_ = 2 if len(raw_) % 2 == 0 and len(raw_) >= 2 else 1
+            f = body.ContentBody(memoryview(raw_).cast('B', shape=[rows_, len(raw_) // rows_]) if raw_ else memoryview(raw_))
+        elif as_view == 'ctypes':
+            import ctypes as _ct
+            ct_ = {'H': _ct.c_uint16, 'I': _ct.c_uint32, 'Q': _ct.c_uint64, 'B': _ct.c_uint8, 'b': _ct.c_int8, 'd': _ct.c_double}[typecode]
+            f = body.ContentBody((ct_ * len(items))(*items))
+        else:
+            f = body.ContentBody(memoryview(arr_) if as_view else arr_)
         payload = arr_.tobytes()
         kind = 'body'
         kl, n_ = catching(len, f)
@@ -1720,7 +1799,7 @@ def oracle_c10(ctx):
             res.violation('content header body size %r' % (n,), {'fn': 'c10_header_size_case', 'args': pyrepr((n,))},
                           bad[0] if k == 'ok' else 'oracle runs', bad[1] if k == 'ok' else repr(bad))
     for typecode, items in [('H', [1, 2, 3]), ('H', []), ('I', [0xCE, 2 ** 32 - 1]), ('d', [1.5]), ('b', [-1, 1]), ('Q', list(range(40))), ('B', [1, 2, 3])]:
-        for as_view in (True, False):
+        for as_view in (True, False, 'matrix', 'ctypes'):
             res.case('bodyarr %s %d %s' % (typecode, len(items), as_view), tag='array body')
             k, bad = catching(c10_frame_case, 'bodyarr', (typecode, items, as_view), 1)
             if k != 'ok' or bad:
@@ -2332,6 +2411,19 @@ def reshare(v, pool):
 
 
 @replayer
+def c12_big_case(nkeys, shape):
+    import random
+    rnd = random.Random(nkeys * 7 + shape)
+    ks = ['key%03d' % j for j in range(nkeys)]
+    rnd.shuffle(ks)
+    big = {k_: j for j, k_ in enumerate(ks)}
+    v = [big, {'inner': big}, [big, 1], {'a': [{'b': big}]}][shape]
+    if shape == 3:
+        big['zz-unsupported'] = object() if nkeys == 18 else 2
+    return c12_case(v, nkeys)
+
+
+@replayer
 def c12_shared_case(v):
     """one sub-container referenced from several places; an equal value built from separate copies must give
     the same bytes (and the same outcome), in both orders of asking"""
@@ -2455,6 +2547,19 @@ def oracle_c12(ctx):
         if k != 'ok' or bad:
             res.violation('encoding depends on what was encoded before', {'fn': 'c12_history_case', 'args': pyrepr((v, i))},
                           bad[0] if k == 'ok' else 'oracle runs', bad[1] if k == 'ok' else repr(bad))
+    for nkeys in (17, 18, 33, 40, 100, 257):
+        for shape in range(4):
+            ks = ['key%03d' % j for j in range(nkeys)]
+            g.r.shuffle(ks)
+            big = {k_: j for j, k_ in enumerate(ks)}
+            v = [big, {'inner': big}, [big, 1], {'a': [{'b': big}]}][shape]
+            if shape == 3:
+                big['zz-unsupported'] = object() if nkeys == 18 else 2
+            res.case('big table %d %d' % (nkeys, shape), tag='large tables built out of order')
+            k, bad = catching(c12_case, v, nkeys)
+            if k != 'ok' or bad:
+                res.violation('order dependence / nondeterminism / mutation (a table of %d entries)' % nkeys, {'fn': 'c12_big_case', 'args': pyrepr((nkeys, shape))},
+                              bad[0] if k == 'ok' else 'oracle runs', bad[1] if k == 'ok' else repr(bad))
     for i in range(8000 if ctx.thorough else 1500):
         v = g.table_ok(depth=g.r.choice([1, 2, 3]), breadth=g.r.choice([2, 3, 6])) if i % 5 else g.value_ok(3, 4)
         if i % 17 == 0:
@@ -2554,7 +2659,11 @@ def typed_values_for(c, g):
     if kind in ('eq', 'eq_bare'):
         if isinstance(c[2], int):
             return [c[2], None, 1, 65535, c[2] + 1, g.r.randrange(65536)]
-        return [c[2], None, '', '0', '1', c[2] + 'x', 'x', ' ', g.short_string()]
+        c_ = c[2]
+        lookalikes = [c_ * 2, ' ' + c_, c_ + ' ', '+' + c_, '-' + c_, c_ + '_' + c_, '\t' + c_ + '\n', c_ + '\n', c_ + '.0', c_ + 'e0', '0x' + c_, c_.upper(), c_.swapcase(),
+                      c_.translate({48 + d_: 0x660 + d_ for d_ in range(10)}), c_.translate({48 + d_: 0xff10 + d_ for d_ in range(10)}), '\u200b' + c_, c_ + '\x00',
+                      'None', 'null', 'False', 'false']
+        return [c_, None, '', '0', '1', c_ + 'x', 'x', ' ', g.short_string()] + [x for x in lookalikes if x != c_]
     if kind == 'false':
         return [False, True, None]
     if kind == 'maxlen':
@@ -3253,7 +3362,10 @@ def c19_case(key, vals):
     cls = commands.Basic.Properties if key == 'props' else commands.INDEX_MAPPING[key]
     obj = real.make_props(vals) if key == 'props' else real.make_method(cls, vals)
     # ordinary read-only use of the object must not disturb the mapping view
-    for use in (repr, str, lambda o: '%r %s' % (o, o), lambda o: dict(o), lambda o: list(o), len, lambda o: o.attributes(), lambda o: sorted(o.attributes())):
+    for use in (repr, str, lambda o: '%r %s' % (o, o), lambda o: dict(o), lambda o: list(o), len, lambda o: o.attributes(), lambda o: sorted(o.attributes()),
+                lambda o: o.amqp_type('no_such_argument'), lambda o: type(o).amqp_type('name'), lambda o: o['no_such_argument'], lambda o: 'zzz' in o,
+                lambda o: getattr(o, 'encode_property', lambda *a: None)('no_such_property', 1), lambda o: reversed(list(o)), lambda o: max(o.attributes() or ['']),
+                lambda o: copy.copy(o), lambda o: [k for k in o if k]):
         try:
             use(obj)
         except Exception:  # noqa
